@@ -51,6 +51,13 @@ type modelScn struct {
 	Args func(thorough bool) []int
 }
 
+func expArgs(th bool) []int {
+	if th {
+		return []int{10, 14, 18, 40, 200}
+	}
+	return []int{10, 14}
+}
+
 func fixed(a ...int) func(bool) []int { return func(bool) []int { return a } }
 func deep(extra ...int) func(bool) []int {
 	return func(th bool) []int { return append(depths(th), extra...) }
@@ -59,9 +66,20 @@ func deep(extra ...int) func(bool) []int {
 var modelScns = []modelScn{
 	{"union-depth", deep(4900)}, {"intersection-depth", deep(4900)}, {"diffbase-depth", deep(4900)}, {"diffsub-depth", deep(4900)},
 	{"relations", fixed(1000, 10000)}, {"types", fixed(100, 101, 10000)}, {"restrictions", fixed(10000)},
-	{"computed-chain", deep()}, {"computed-cycle", fixed(1, 2, 3, 50)},
+	{"computed-chain", func(th bool) []int {
+		if th {
+			return []int{10, 100, 300, 600, 3000, 10000}
+		}
+		return []int{10, 100, 300}
+	}}, {"computed-cycle", fixed(1, 2, 3, 50)},
 	{"ttu-chain", fixed(10, 24, 26, 99)}, {"ttu-self", fixed(0)}, {"ttu-self-noentry", fixed(0)}, {"userset-self", fixed(0)},
-	{"exp-intersection", fixed(10, 20, 40, 200)}, {"exp-union", fixed(10, 20, 40, 200)}, {"exp-exclusion", fixed(10, 20, 40, 200)},
+	{"exp-union", func(th bool) []int {
+		if th {
+			return []int{10, 14, 18, 40, 200}
+		}
+		return []int{10, 14, 40}
+	}},
+	{"exp-intersection", expArgs}, {"exp-exclusion", expArgs},
 	{"union-wide", fixed(1000, 10000)},
 	{"cond-terms", fixed(100, 10000, 100000)}, {"cond-parens", deep()}, {"cond-not", deep()}, {"cond-listlit", deep()}, {"cond-ternary", deep()},
 	{"cond-undeclared", fixed(0)}, {"cond-params", fixed(10000)}, {"cond-generic-depth", deep(4900)}, {"cond-many", fixed(10000)},
@@ -365,7 +383,8 @@ type cyclicScn struct {
 }
 
 var cyclicScns = []cyclicScn{
-	{"userset-cycle", []int{1, 2, 3, 50}},
+	{"userset-cycle", []int{2, 3, 50}},
+	{"stored-selfloop", []int{1}},
 	{"ttu-cycle", []int{1, 2, 3, 50}},
 	{"ctx-userset-cycle", []int{2, 3, 50}},
 	{"ctx-ttu-cycle", []int{2, 3, 50}},
@@ -379,21 +398,31 @@ var cyclicScns = []cyclicScn{
 	{"dense-cycle", []int{12}},
 }
 
-// cyclicData returns (stored tuples, contextual tuples).
+// cyclicDirect: scenarios whose tuples are written through the datastore because Write refuses them.
+var cyclicDirect = map[string]bool{"stored-selfloop": true}
+
+// cyclicData returns (stored tuples, contextual tuples). Groups reach doc:1 through folder:fz (doc#viewer only admits
+// conditioned group usersets): doc:1#parent@folder:fz, folder:fz#viewer@group:g0#member.
 func cyclicData(scn string, n int) (stored, ctxual []*openfgav1.TupleKey) {
 	g := func(i int) string { return "group:g" + strconv.Itoa(i) }
 	f := func(i int) string { return "folder:f" + strconv.Itoa(i) }
+	entry := func(grp string) []*openfgav1.TupleKey {
+		return []*openfgav1.TupleKey{tk("doc:1", "parent", "folder:fz"), tk("folder:fz", "viewer", grp+"#member")}
+	}
 	switch scn {
 	case "userset-cycle", "ctx-userset-cycle":
 		var ts []*openfgav1.TupleKey
 		for i := 0; i < n; i++ {
 			ts = append(ts, tk(g(i), "member", g((i+1)%n)+"#member"))
 		}
-		ts = append(ts, tk("doc:1", "viewer", g(0)+"#member"))
+		ts = append(ts, entry(g(0))...)
 		if scn == "ctx-userset-cycle" {
 			return nil, ts
 		}
 		return ts, nil
+	case "stored-selfloop":
+		// group:g0#member@group:g0#member is refused by Write ("implicit"); it can pre-exist, see cyclicDirect
+		return append(entry(g(0)), tk(g(0), "member", g(0)+"#member")), nil
 	case "ttu-cycle", "ctx-ttu-cycle":
 		var ts []*openfgav1.TupleKey
 		for i := 0; i < n; i++ {
@@ -405,7 +434,7 @@ func cyclicData(scn string, n int) (stored, ctxual []*openfgav1.TupleKey) {
 		}
 		return ts, nil
 	case "group-chain":
-		ts := []*openfgav1.TupleKey{tk("doc:1", "viewer", g(0)+"#member")}
+		ts := entry(g(0))
 		for i := 0; i < n; i++ {
 			ts = append(ts, tk(g(i), "member", g(i+1)+"#member"))
 		}
@@ -423,9 +452,9 @@ func cyclicData(scn string, n int) (stored, ctxual []*openfgav1.TupleKey) {
 		}
 		return ts, nil
 	case "fanout-usersets":
-		var ts []*openfgav1.TupleKey
+		ts := []*openfgav1.TupleKey{tk("doc:1", "parent", "folder:fz")}
 		for i := 0; i < n; i++ {
-			ts = append(ts, tk("doc:1", "viewer", g(i)+"#member"))
+			ts = append(ts, tk("folder:fz", "viewer", g(i)+"#member"))
 		}
 		return ts, nil
 	case "fanout-ttu":
@@ -441,14 +470,14 @@ func cyclicData(scn string, n int) (stored, ctxual []*openfgav1.TupleKey) {
 		}
 		return ts, nil
 	case "star-cycle":
-		ts := []*openfgav1.TupleKey{tk("doc:1", "viewer", g(0)+"#member")}
+		ts := entry(g(0))
 		for i := 1; i <= n/2; i++ {
 			ts = append(ts, tk(g(0), "member", g(i)+"#member"), tk(g(i), "member", g(0)+"#member"))
 		}
 		return ts, nil
 	case "dense-cycle":
 		// complete directed graph on n groups: n! simple paths for a resolver without a visited set
-		ts := []*openfgav1.TupleKey{tk("doc:1", "viewer", g(0)+"#member")}
+		ts := entry(g(0))
 		for i := 0; i < n; i++ {
 			for j := 0; j < n; j++ {
 				if i != j {
